@@ -6,6 +6,10 @@
   draw:       inverse_cdf_index, probs_eq, sample_in_support, sample_row_support
               (+ sample_zero_uniform / sample_zero_uniform_witness: why `0 < r` is needed)
   mass:       sumOver_eq_flat, sumOver_sampleVal, sample_mass
+  Props/C14/Variant.lean: the draw statement as the source reads now (Gen/C14Variant.lean):
+              countLe_spec, clamp_noop, inverse_cdf_index_variant, gen_variant_proven,
+              sample_row_support_current (every 0 ≤ r < 1), sample_mass_current
+  Props/C14/Gaussian.lean: gaussian_sample_affine, gaussian_sample_conditional (Mathlib matrices over ℚ)
   All statements are for lists of any length / any number of variables / any sizes.
   Exact rational arithmetic: float rounding of exp / cumsum is outside the model.
 -/
